@@ -4,6 +4,8 @@
     a panicking bounds check, an explicit panic edge or an unwrap without a dominating bound against a structure quantity
  R2 the width predicate is the same at all validation sites and dominates every construction
  R3 (informational) sibling clamps of the three bitvector types side by side
+ R4 / R5 cross-registered necessary conditions (C10.R8, C10.R1, C16.R2)
+ R6 the select-family clamp is exactly `rank >= count` in all 12 implementations, and the refused rank is not used
 """
 from facts import Undecided, loc, tstr, callee_name, callee_written, subterms, operand_place
 from guards import facts_at, strip_casts, edge_facts
@@ -194,7 +196,120 @@ def check_width_predicate(ctx, F, tag, prefix, only=None):
                "construction dominated by exactly width != 0 && width <= WORD_BITS with the checked value stored: %s; refusing edge returns Err: %s" % (ok, bool(errs)))
 
 
+def first_switch(b):
+    """The first block with a switch terminator on the straight line from the entry."""
+    bi, seen = 0, set()
+    while bi not in seen:
+        seen.add(bi)
+        t = b.blocks[bi]["term"]
+        if t["t"] == "switch":
+            return bi
+        nxt = t.get("target")
+        if t["t"] not in ("goto", "call", "assert", "drop") or nxt is None:
+            return None
+        bi = nxt
+    return None
+
+
+def check_select_clamps(ctx, F, tag, prefix="C09.R6"):
+    """`select / select_zero(r >= count) = None with empty iterators`, the three bitvector types agreeing: every select-family entry
+    point of every type splits on exactly `rank >= count` (count_ones for Select, count_zeros for SelectZero), the refused rank is
+    never used on the refusing side, and an Option-returning method refuses with None.  A3 above only asks for *a* bound; this
+    rule asks for *the* bound (an off-by-one clamp lets rank == count through to the in-range code, which reads past the last
+    sample or unwraps a None)."""
+    from facts import reads_of_stmt, reads_of_term
+    n = 0
+    for tr in ("ops::Select", "ops::SelectZero"):
+        for im in F.impls_of(tr):
+            ty = im["self_ty"].get("def")
+            if ty not in BITVECS:
+                continue
+            for it in im["items"]:
+                if it["name"] not in TRAIT_METHODS[tr] or not F.has_body(it["def"]):
+                    continue
+                b = F.body(it["def"])
+                key = it["def"] + tag
+                where = loc(b.raw["span"])
+
+                def is_count(t):
+                    t = core(t)
+                    if t[0] != "call" or not t[2] or core(t[2][0])[:2] != ("param", 0):
+                        return False
+                    last = t[1].split("::")[-1]
+                    if tr == "ops::Select":
+                        return last == "count_ones" and "Complement" not in t[1]
+                    return last == "count_zeros" or (last == "count_ones" and "Complement" in t[1])
+
+                def is_rank(t):
+                    return core(t)[:2] == ("param", 1) and strip_casts(t)[:2] == ("param", 1)
+                accept = refuse = None
+                wrong, other = [], []
+                for u, v, f in edge_facts(b):
+                    if f[0] != "cmp" or b.pred(v) != [u]:
+                        continue
+                    op, x, y = f[1], f[2], f[3]
+                    if is_count(x) and is_rank(y):
+                        op, x, y = {"Lt": "Gt", "Gt": "Lt", "Le": "Ge", "Ge": "Le", "Eq": "Eq", "Ne": "Ne"}[op], y, x
+                    if not (is_rank(x) and is_count(y)):
+                        if (is_rank(x) or is_rank(y)) and u == first_switch(b):
+                            other.append(tstr(("bin", f[1], f[2], f[3]))[:70])
+                        continue
+                    if op == "Lt" and accept is None:
+                        accept = (u, v)
+                    elif op == "Ge" and refuse is None:
+                        refuse = (u, v)
+                    elif op in ("Le", "Gt", "Eq", "Ne"):
+                        wrong.append(tstr(("bin", f[1], f[2], f[3]))[:70])
+                n += 1
+                if accept is None and not wrong:
+                    wrong = other            # the first test of the rank is against something that is not the count
+                if accept is None or refuse is None or accept[0] != refuse[0]:
+                    # no clamp of its own: forwarding the rank unchanged to a sibling entry point is as good
+                    sib = [callee_name(t) for _, t in b.calls() if callee_name(t) != b.name and callee_name(t).split("::")[-1] in sum(TRAIT_METHODS.values(), []) and
+                           any(is_rank(b.term_of_operand(a)) for a in t["args"][1:]) and core(b.term_of_operand(t["args"][0]))[:2] == ("param", 0)]
+                    if sib and not wrong:
+                        ctx.ob(prefix + ".select-clamp-exact", key, where, True, "delegation", "forwards self and the rank unchanged to %s" % sib[0])
+                        continue
+                    if wrong:
+                        ctx.ob(prefix + ".select-clamp-exact", key, where, False, "guard-shape",
+                               "the rank is compared as %s; the documented clamp is rank >= %s -> %s" % (wrong, "count_ones()" if tr == "ops::Select" else "count_zeros()",
+                                                                                                     "None" if not it["name"].endswith("_iter") else "an empty iterator"))
+                        continue
+                    raise Undecided("anchor lost: %s neither compares its rank with the count nor forwards it to a sibling" % it["def"])
+                u, A = accept
+                R = refuse[1]
+                # the refused rank is not used on the refusing side: every read of the rank outside the comparison is dominated by the accepting edge
+                copies = {2}
+                for bi, si, st in b.stmts():
+                    if st["s"] == "assign" and not st["lhs"]["p"] and st["rv"]["r"] == "use":
+                        q = operand_place(st["rv"]["o"])
+                        if q is not None and not q["p"] and q["l"] in copies and not b.dominates(A, bi) and bi != u and not b.dominates(bi, u):
+                            copies.add(st["lhs"]["l"])
+                stray = []
+                for bi in sorted(b.reachable()):
+                    if b.dominates(A, bi) or b.dominates(bi, u):
+                        continue
+                    blk = b.blocks[bi]
+                    reads = [l for st in blk["stmts"] for l in reads_of_stmt(st)] + reads_of_term(blk["term"])
+                    if any(l in copies for l in reads):
+                        stray.append(loc(blk["term"]["sp"]))
+                from_r = b.reach_from([R])
+                some_after_refusal = [bi for bi in from_r for st in b.blocks[bi]["stmts"]
+                                      if st["s"] == "assign" and st["rv"]["r"] == "agg" and st["rv"].get("vname") == "Some" and st["lhs"]["l"] == 0]
+                none_built = any(st["s"] == "assign" and st["rv"]["r"] == "agg" and st["rv"].get("vname") == "None" and st["lhs"]["l"] == 0
+                                 for bi in from_r for st in b.blocks[bi]["stmts"])
+                opt = not it["name"].endswith("_iter")
+                ok = not wrong and not stray and not some_after_refusal and (none_built or not opt)
+                ctx.ob(prefix + ".select-clamp-exact", key, where, ok, "guard-shape+dominance",
+                       "splits on rank >= %s exactly: %s%s; the refused rank is read again at %s; refusing side builds %s" % (
+                           "count_ones()" if tr == "ops::Select" else "count_zeros()", not wrong, (" (also: %s)" % wrong) if wrong else "", stray or "no site",
+                           ("None: %s, Some: %s" % (none_built, bool(some_after_refusal))) if opt else "the empty iterator"))
+    ctx.count("select-clamp-sites" + tag, n)
+    ctx.floor("select-clamp-sites" + tag, 12)
+
+
 def check_config_tail(ctx, F, tag):
+    check_select_clamps(ctx, F, tag)
 
     # ---------------- R3 informational: sibling clamps
     for tr, methods in TRAIT_METHODS.items():
